@@ -278,6 +278,20 @@ func checkC01(c *Ctx) {
 	}, false, "the transaction is acknowledged with 250 although a recipient's copy was not stored, and the client will not retry")
 	r.Floor("C01/ACK/store-error", "Store.AddMessage calls in Deliver", nAdd, 1)
 
+	// stores: the append of the new message to a mailbox is atomic with respect to other
+	// deliveries (decided by C09's lock rules; a lost update here is a lost acknowledged message)
+	nB := c.borrow(func(c2 *Ctx) {
+		if pm := c2.pairing(); pm.ok {
+			c2.c09File(pm)
+		}
+	}, "C09/GUARD/file/(*file.Store).AddMessage", "C01/STORE/atomic-append", "file store: AddMessage loads the index, appends and writes it back inside one critical section of the mailbox's bucket lock, in write mode, released on all exits")
+	nB += c.borrow(func(c2 *Ctx) {
+		if pm := c2.pairing(); pm.ok {
+			c2.c09Mem(pm)
+		}
+	}, "C09/GUARD/mem/boxes-insert", "C01/STORE/atomic-create", "memory store: a mailbox entry is looked up and created in one critical section (two first deliveries cannot each create an entry)")
+	r.Floor("C01/STORE/atomic-append", "borrowed store-atomicity obligations", nB, 1)
+
 	// ---- D6
 	t := c.smtpTypestate(m)
 	for _, u := range t.undec {
